@@ -341,6 +341,13 @@ func (s *Sched) unlock(m *sync.Mutex) {
 
 func (s *Sched) onceDo(o *sync.Once, f func()) {
 	t := s.me()
+	if os := s.onces[o]; os != nil && os.done {
+		// a completed Once is an immutable flag: Do commutes with every other step, so it is
+		// not a scheduling point (only the happens-before edge is recorded)
+		join(t.vc, os.vc)
+		t.vc[t.id]++
+		return
+	}
 	s.yield(t, "once.Do")
 	os := s.onces[o]
 	if os == nil {
